@@ -48,6 +48,7 @@ type pkgInfo struct {
 	// const name -> (spec expr, iota, file) for lazy evaluation
 	consts map[string]*constDecl
 	funcs  map[string]*ast.FuncDecl // "Recv.Name" or "Name"
+	vars   map[string]bool          // names declared by top-level `var`
 }
 
 type constDecl struct {
@@ -76,7 +77,7 @@ func extractMain(args []string) {
 		if err != nil {
 			continue
 		}
-		pi := &pkgInfo{name: strings.ReplaceAll(p, "/", "_"), consts: map[string]*constDecl{}, funcs: map[string]*ast.FuncDecl{}}
+		pi := &pkgInfo{name: strings.ReplaceAll(p, "/", "_"), consts: map[string]*constDecl{}, funcs: map[string]*ast.FuncDecl{}, vars: map[string]bool{}}
 		for _, e := range ents {
 			n := e.Name()
 			if e.IsDir() || !strings.HasSuffix(n, ".go") || strings.HasSuffix(n, "_test.go") {
@@ -98,6 +99,15 @@ func extractMain(args []string) {
 			for _, d := range f.Decls {
 				switch d := d.(type) {
 				case *ast.GenDecl:
+					if d.Tok == token.VAR {
+						for _, sp := range d.Specs {
+							for _, nm := range sp.(*ast.ValueSpec).Names {
+								if nm.Name != "_" {
+									pi.vars[nm.Name] = true
+								}
+							}
+						}
+					}
 					if d.Tok != token.CONST {
 						continue
 					}
@@ -360,7 +370,7 @@ func extractMain(args []string) {
 				switch kind {
 				case "lock", "src", "lockorder":
 					fmt.Fprintf(&lean, "def %s : String := \"<missing>\"\n", id)
-				case "calls":
+				case "calls", "globals":
 					fmt.Fprintf(&lean, "def %s : List String := [\"<missing>\"]\n", id)
 				case "walk":
 					fmt.Fprintf(&lean, "def %s : List (String × String) := [(\"start\", \"<missing>\")]\n", id)
@@ -381,6 +391,10 @@ func extractMain(args []string) {
 				facts[id] = v
 			case "calls":
 				v := callsFact(fd)
+				fmt.Fprintf(&lean, "def %s : List String := [%s]\n", id, joinLeanStrings(v))
+				facts[id] = v
+			case "globals":
+				v := globalsFact(fd, pi.vars)
 				fmt.Fprintf(&lean, "def %s : List String := [%s]\n", id, joinLeanStrings(v))
 				facts[id] = v
 			case "switch":
@@ -502,6 +516,79 @@ func callsFact(fd *ast.FuncDecl) []string {
 	var out []string
 	for k, v := range cnt {
 		out = append(out, fmt.Sprintf("%s*%d", k, v))
+	}
+	sort.Strings(out)
+	return out
+}
+
+// globalsFact: names of top-level `var`s of the package that the function body mentions
+// (shared mutable state a pure computation must not touch). Names the function itself declares
+// (parameters, results, :=, var, range) shadow a package variable and are not reported;
+// selector fields (x.name) are not identifiers of the package scope.
+func globalsFact(fd *ast.FuncDecl, vars map[string]bool) []string {
+	local := map[string]bool{}
+	addFields := func(fl *ast.FieldList) {
+		if fl == nil {
+			return
+		}
+		for _, f := range fl.List {
+			for _, n := range f.Names {
+				local[n.Name] = true
+			}
+		}
+	}
+	addFields(fd.Recv)
+	addFields(fd.Type.Params)
+	addFields(fd.Type.Results)
+	ast.Inspect(fd.Body, func(n ast.Node) bool {
+		switch x := n.(type) {
+		case *ast.AssignStmt:
+			if x.Tok == token.DEFINE {
+				for _, l := range x.Lhs {
+					if id, ok := l.(*ast.Ident); ok {
+						local[id.Name] = true
+					}
+				}
+			}
+		case *ast.ValueSpec:
+			for _, id := range x.Names {
+				local[id.Name] = true
+			}
+		case *ast.RangeStmt:
+			if x.Tok == token.DEFINE {
+				for _, e := range []ast.Expr{x.Key, x.Value} {
+					if id, ok := e.(*ast.Ident); ok {
+						local[id.Name] = true
+					}
+				}
+			}
+		case *ast.FuncLit:
+			addFields(x.Type.Params)
+			addFields(x.Type.Results)
+		}
+		return true
+	})
+	seen := map[string]bool{}
+	var walk func(n ast.Node) bool
+	walk = func(n ast.Node) bool {
+		switch x := n.(type) {
+		case *ast.SelectorExpr:
+			ast.Inspect(x.X, walk) // the field / method name is not a package-scope identifier
+			return false
+		case *ast.KeyValueExpr:
+			ast.Inspect(x.Value, walk) // struct literal keys are field names
+			return false
+		case *ast.Ident:
+			if vars[x.Name] && !local[x.Name] {
+				seen[x.Name] = true
+			}
+		}
+		return true
+	}
+	ast.Inspect(fd.Body, walk)
+	out := []string{}
+	for k := range seen {
+		out = append(out, k)
 	}
 	sort.Strings(out)
 	return out
